@@ -5,8 +5,8 @@
    (1) two synchronisation barriers before the first MPC message, per-session handler tables: TSS.Orch.SessionFacts
        (Props/C12.v, C11.v, C06.v) -- re-exported below, not re-proved;
    (2) every protocol message is handed to the backend exactly once, for EVERY schedule that delivers everything
-       (loud mode): TSS.RBC.Totality.totality (Props/C04.v); silent mode: TSS.Box.Handoff (Props/C14.v, with the known
-       findings C14-a/b/c: a message can be late or lost across the first-send race -- inherited here as C01-b);
+       (loud mode): TSS.RBC.Totality.totality (Props/C04.v); silent mode: TSS.Box.Handoff (Props/C14.v; the first-send race
+       C14-a/b/c of the pinned msg.Box, through which a message could be late or lost, is repaired in /repo: b40b5e7);
    (3) C01_dkg_honest / C01_dkg_honest_alg: with (2) as the hypothesis "every message that is sent is delivered", in ANY
        interleaving of deliveries and wake-ups (early messages included) every party returns Ok with identical
        (tpk, pks) = (g^P(0), [g^P(i)]_i) and sk_i = P(i), P the sum of the dealt polynomials;  all 1 <= t <= n;
@@ -15,8 +15,8 @@
    Orchestrated signing is a pass-through: every participant returns what its backend returns for the digest it was given
    (TSS.Orch.SessionFacts / Props/C11.v, C12.v).  Its LIVENESS is _partial: in the session model a signing session completes
    when every synchroniser query is answered; the code does not guarantee that in loud mode (known finding C01-a: a signer
-   that finished the pre-signing synchronisation unregisters the topic and drops the query of a slower signer), and silent
-   mode inherits C14-a (C01-b).  The safety clauses (identical material, signatures verify) are proved without exception. *)
+   that finished the pre-signing synchronisation unregisters the topic and drops the query of a slower signer).
+   The safety clauses (identical material, signatures verify) are proved without exception. *)
 From Coq Require Import List ZArith.
 Require Import TSS.Base.Base TSS.Alg.DKG TSS.Alg.DKGSystem TSS.Corr.DKGCorr.
 Require TSS.Orch.SessionFacts TSS.RBC.Totality TSS.Box.Handoff.
